@@ -571,6 +571,17 @@ def _use_key(body, how):
     return (json.dumps(b, sort_keys=True), how)
 
 
+def _same_handler(a, b):
+    """the same SIGINT handler: the same object, or two bound-method objects of one method of one object (every
+    `self.sigint_handler` makes a new one; they are equal and behave identically)"""
+    if a is b:
+        return True
+    try:
+        return type(a) is type(b) and hasattr(a, "__self__") and a.__self__ is b.__self__ and a.__func__ is b.__func__
+    except AttributeError:
+        return False
+
+
 def _violate(res, name, step, detail):
     if res["violation"] is None:
         res["violation"] = {"invariant": name, "step": step, "detail": detail}
@@ -645,7 +656,7 @@ class _Exec:
             self.ever_owned.update(new)
         idx = [i for i, f in enumerate(self.frames) if f["id"] == target]
         if idx and idx[-1] < len(self.frames) - 1:
-            changed = [c for c in self.LIGHT if (pre[c] is not post[c] if c == "sigint" else pre[c] != post[c])]
+            changed = [c for c in self.LIGHT if (not _same_handler(pre[c], post[c]) if c == "sigint" else pre[c] != post[c])]
             if changed:
                 self.world.probe("outer_object_changed_state_inside_inner_context")
                 for f in self.frames[idx[-1] + 1:]:
@@ -662,7 +673,7 @@ class _Exec:
         if after["flags"] != before["flags"] and "flags" not in excused:
             _violate(self.res, "status_flags_not_restored", self.point,
                      dict(where, before=before["flags"], after=after["flags"]))
-        if after["sigint"] is not before["sigint"] and "sigint" not in excused:
+        if not _same_handler(after["sigint"], before["sigint"]) and "sigint" not in excused:
             _violate(self.res, "sigint_handler_not_restored", self.point,
                      dict(where, before=_name(before["sigint"]), after=_name(after["sigint"])))
         if after["wakeup_fd"] != before["wakeup_fd"] and "wakeup_fd" not in excused:
@@ -1133,7 +1144,7 @@ def _run_one(p, keep_log):
             for key in ("attrs", "flags", "wakeup_fd", "fds", "cursor_visible", "active"):
                 if last[key] != first[key]:
                     _violate(res, "final_state_differs_" + key, ex.point, {"before": first[key], "after": last[key]})
-            if last["sigint"] is not first["sigint"]:
+            if not _same_handler(last["sigint"], first["sigint"]):
                 _violate(res, "final_state_differs_sigint", ex.point, {})
     except HarnessError as e:
         res["error"] = "harness: %s" % e
